@@ -37,6 +37,11 @@ fn build_suite(name: &str, params: &Value) -> Box<dyn Suite + Send + Sync> {
             let nums = |v: &Value| -> Vec<usize> { v.as_array().map(|a| a.iter().map(|x| x.as_u64().unwrap() as usize).collect()).unwrap_or_default() };
             Box::new(Grid { kinds: strs(&params["kinds"]), lens: nums(&params["lens"]), rems: nums(&params["rems"]), offsets: nums(&params["offsets"]), delims: strs(&params["delims"]), tails: strs(&params["tails"]) })
         }
+        "delims" => {
+            let nums = |v: &Value| -> Vec<usize> { v.as_array().map(|a| a.iter().map(|x| x.as_u64().unwrap() as usize).collect()).unwrap_or_default() };
+            Box::new(Delims { kinds: strs(&params["kinds"]), lens: nums(&params["lens"]), mbs: strs(&params["mbs"]), positions: nums(&params["positions"]), terms: strs(&params["terms"]) })
+        }
+        "dirnest" => Box::new(DirNest { count: params["count"].as_u64().unwrap_or(1000), seed: params["seed"].as_u64().unwrap_or(0) }),
         "programs" => {
             // params: path, variants: [[deco, spacing, {opts}]...], alts: [[spacing, mode]...]
             let progs = prog::load_programs(params["path"].as_str().unwrap());
@@ -229,6 +234,21 @@ fn main() {
             // vh suite-len <suite> <params-json>
             let params: Value = serde_json::from_str(&args[3]).expect("params");
             println!("{}", build_suite(&args[2], &params).len());
+        }
+        Some("case") => {
+            // vh case <props,comma-separated> <cfg-json> [wf]   (text on stdin): run the monitors on one text
+            let props: Vec<String> = args[2].split(',').map(|s| s.to_string()).collect();
+            let cfg = cfg_from_json(&serde_json::from_str(args.get(3).map(|s| s.as_str()).unwrap_or("{}")).expect("cfg"));
+            let mut text = String::new();
+            std::io::Read::read_to_string(&mut std::io::stdin(), &mut text).unwrap();
+            obs::install_panic_hook();
+            let case = Case { text, label: "stdin".into(), well_formed: args.get(4).map(|s| s == "wf").unwrap_or(false), wrap_hint: None, meta: Value::Null };
+            let mut ctx = Ctx::new();
+            let r = check_case(&mut ctx, &case, &cfg, &props, false);
+            for v in &r.viols {
+                println!("{}", json!({"prop": v.prop, "clause": v.clause, "detail": v.detail}));
+            }
+            println!("{}", json!({"viols": r.viols.len(), "nontrivial": r.nontrivial.iter().map(|(k, n)| (k.to_string(), *n)).collect::<HashMap<String, u64>>()}));
         }
         Some("fmt") => {
             // vh fmt <cfg-json>   (stdin -> stdout), for replaying a single case
